@@ -30,19 +30,26 @@ type Round struct {
 
 // Case is one login.
 type Case struct {
-	Flavour     string   `json:"flavour"` // telnet, ssh
-	Rounds      []Round  `json:"rounds"`
-	Shell       bool     `json:"shell"` // ends with MOTD + shell prompt
-	Motd        []string `json:"motd"`
-	StallAt     int      `json:"stall_at"` // -1 none; device stream offset after which nothing is delivered
-	User        string   `json:"user"`
-	Password    string   `json:"password"`
-	Passphrase  string   `json:"passphrase"`
-	Plan        []int    `json:"plan"`
-	ReadSize    int      `json:"read_size"`
-	ReadDelayNS int64    `json:"read_delay_ns"`
-	LogLevel    string   `json:"log_level"`
-	NLoggers    int      `json:"n_loggers"`
+	Flavour string   `json:"flavour"` // telnet, ssh
+	Rounds  []Round  `json:"rounds"`
+	Shell   bool     `json:"shell"` // ends with MOTD + shell prompt
+	Motd    []string `json:"motd"`
+	// Reopen (only acted on when the first open succeeds): after Close the same driver is opened
+	// again, against the same dialogue ("same": must succeed again, each credential again at most
+	// twice) or against a device that stays silent ("silent": must not succeed).
+	Reopen string `json:"reopen,omitempty"`
+	// ReopenEarly: the first session is closed right after Open, before anything consumed what
+	// its login left readable.
+	ReopenEarly bool   `json:"reopen_early,omitempty"`
+	StallAt     int    `json:"stall_at"` // -1 none; device stream offset after which nothing is delivered
+	User        string `json:"user"`
+	Password    string `json:"password"`
+	Passphrase  string `json:"passphrase"`
+	Plan        []int  `json:"plan"`
+	ReadSize    int    `json:"read_size"`
+	ReadDelayNS int64  `json:"read_delay_ns"`
+	LogLevel    string `json:"log_level"`
+	NLoggers    int    `json:"n_loggers"`
 	// WriteFailAfter >= 0: the transport fails every write after that many succeeded (used by the
 	// C11 log checks: a failing write must not leak what it carried). absent = never.
 	WriteFailAfter *int `json:"write_fail_after,omitempty"`
@@ -174,6 +181,9 @@ func Gen(t *rapid.T) Case {
 	if rapid.IntRange(0, 3).Draw(t, "stall") == 0 {
 		c.StallAt = rapid.IntRange(0, 400).Draw(t, "stallAt")
 	}
+
+	c.Reopen = rapid.SampledFrom([]string{"", "", "same", "silent"}).Draw(t, "reopen")
+	c.ReopenEarly = rapid.Bool().Draw(t, "reopenEarly")
 
 	return c
 }
@@ -515,51 +525,111 @@ func Run(c Case) (res Result) {
 
 		// without typing anything, what login consumed (at least the shell prompt it stopped at)
 		// is readable again
-		rb, rerr := d.Channel.ReadAll()
-		if rerr != nil || !strings.Contains(string(rb), strings.TrimSpace(shellPrompt)) {
-			res.Verdict = ev.Fail("bytes consumed by login are not available after Open: ReadAll = %q, %v", rb, rerr)
-
-			_ = d.Close()
-
-			return res
-		}
-
-		// ... and so is everything the device printed between the last credential and that prompt
-		rest := string(rb)
-
-		for i, l := range c.Motd {
-			j := strings.Index(rest, l)
-			if j < 0 {
-				res.Verdict = ev.Fail("bytes consumed by login are not available after Open: banner line %d of %d (%q) is missing from (or out of order in) what can be read back (%d bytes: %q ...)",
-					i, len(c.Motd), l, len(rb), rb[:min(len(rb), 120)])
+		readBack := func() bool {
+			rb, rerr := d.Channel.ReadAll()
+			if rerr != nil || !strings.Contains(string(rb), strings.TrimSpace(shellPrompt)) {
+				res.Verdict = ev.Fail("bytes consumed by login are not available after Open: ReadAll = %q, %v", rb, rerr)
 
 				_ = d.Close()
 
-				return res
+				return true
 			}
 
-			rest = rest[j+len(l):]
+			// ... and so is everything the device printed between the last credential and that prompt
+			rest := string(rb)
+
+			for i, l := range c.Motd {
+				j := strings.Index(rest, l)
+				if j < 0 {
+					res.Verdict = ev.Fail("bytes consumed by login are not available after Open: banner line %d of %d (%q) is missing from (or out of order in) what can be read back (%d bytes: %q ...)",
+						i, len(c.Motd), l, len(rb), rb[:min(len(rb), 120)])
+
+					_ = d.Close()
+
+					return true
+				}
+
+				rest = rest[j+len(l):]
+			}
+
+			p, perr := d.GetPrompt()
+			if perr != nil || strings.TrimSpace(p) != strings.TrimSpace(shellPrompt) {
+				res.Verdict = ev.Fail("first GetPrompt after login: %q, %v", p, perr)
+
+				_ = d.Close()
+
+				return true
+			}
+
+			r, cerr := d.SendCommand("show clock Q")
+			if cerr != nil || r.Result != "result of show clock Q" {
+				res.Verdict = ev.Fail("first command after login: %+v, %v", r, cerr)
+
+				_ = d.Close()
+
+				return true
+			}
+
+			return false
 		}
 
-		p, perr := d.GetPrompt()
-		if perr != nil || strings.TrimSpace(p) != strings.TrimSpace(shellPrompt) {
-			res.Verdict = ev.Fail("first GetPrompt after login: %q, %v", p, perr)
-
-			_ = d.Close()
-
-			return res
-		}
-
-		r, cerr := d.SendCommand("show clock Q")
-		if cerr != nil || r.Result != "result of show clock Q" {
-			res.Verdict = ev.Fail("first command after login: %+v, %v", r, cerr)
-
-			_ = d.Close()
-
+		if !(c.Reopen != "" && c.ReopenEarly) && readBack() {
 			return res
 		}
 
 		_ = d.Close()
+
+		if c.Reopen != "" {
+			closesBefore := pipe.Closes
+
+			dev2 := &loginDev{c: &c}
+			if c.Reopen == "silent" {
+				silent := c
+				silent.Rounds, silent.Shell, silent.Motd = nil, false, nil
+				dev2 = &loginDev{c: &silent}
+			}
+
+			pipe.Reset(dev2)
+
+			err2 := d.Open()
+
+			switch {
+			case c.Reopen == "same" && err2 != nil:
+				res.Verdict = ev.Fail("second Open of the same driver against the same dialogue failed: %v (second device log %q)", err2, dev2.Log)
+
+				return res
+			case c.Reopen == "silent" && err2 == nil:
+				res.Verdict = ev.Fail("second Open of the same driver succeeded although the device stayed completely silent (device log %q)", dev2.Log)
+				_ = d.Close()
+
+				return res
+			case err2 != nil && pipe.Closes <= closesBefore:
+				res.Verdict = ev.Fail("second Open failed with %v but the transport was not closed", err2)
+
+				return res
+			}
+
+			if err2 == nil {
+				n2 := map[string]int{}
+
+				for _, l := range dev2.Log {
+					if i := strings.Index(l, "|"); i > 0 {
+						n2[l[:i]]++
+					}
+				}
+
+				for kind, n := range n2 {
+					if kind != "shell" && kind != "" && n > 2 {
+						res.Verdict = ev.Fail("second open: the %s was sent %d times", kind, n)
+						_ = d.Close()
+
+						return res
+					}
+				}
+
+				_ = d.Close()
+			}
+		}
 	}
 
 	v := ev.Verdict{OK: true, Classes: []string{"flavour=" + c.Flavour, "outcome=" + got}}
@@ -585,6 +655,11 @@ func Run(c Case) (res Result) {
 
 	if c.StallAt >= 0 {
 		v.Classes = append(v.Classes, "stall")
+	}
+
+	if c.Reopen != "" && got == "success" {
+		v.NonTrivial = true
+		v.Classes = append(v.Classes, "reopen="+c.Reopen)
 	}
 
 	res.Verdict = v
